@@ -57,7 +57,19 @@ def main():
             print(out[-3000:])
         if not nosuite:
             t0 = time.time()
+            # remove whatever the demo left behind (copied demo test files), keep the patch itself
+            sh("git clean -fdq -e SEED", W)
             rc, out = sh("go test -vet=off -count=1 -skip '^ExampleNew$' ./... 2>&1 | grep -v '^ok\\|no test files' | tail -40", W)
+            for attempt in range(3):
+                if "FAIL" not in out:
+                    break
+                # timing-sensitive tests of the repository (e.g. internal/cache) can fail on a loaded machine: re-run failing packages
+                pkgs = sorted(set(l.split()[1] for l in out.splitlines() if l.startswith("FAIL\t")))
+                if not pkgs:
+                    break
+                pk = " ".join("./" + p.replace("github.com/regclient/regclient", "").lstrip("/") for p in pkgs)
+                res.setdefault("suite_retried_packages", []).extend(pkgs)
+                rc, out = sh("go test -vet=off -count=1 -skip '^ExampleNew$' %s 2>&1 | grep -v '^ok\\|no test files' | tail -40" % pk, W)
             res["suite_with_patch"] = "pass" if "FAIL" not in out else "fail"
             print("suite with patch: %s (%.0fs)" % (res["suite_with_patch"], time.time() - t0))
             if res["suite_with_patch"] != "pass":
